@@ -186,7 +186,8 @@ def require(cond, msg):
 
 
 def returns(func_node):
-    return [n for n in walk_no_nested(func_node) if isinstance(n, ast.Return)]
+    return sorted((n for n in walk_no_nested(func_node)
+                   if isinstance(n, ast.Return)), key=lambda r: r.lineno)
 
 
 def text(node):
